@@ -819,6 +819,8 @@ class Spec:
             scope.pop(key, None)
         if CHILD_ERRORS in scope:
             scope[CHILD_ERRORS] = []
+        if Path in scope:  # extended in place: never the caller's list
+            scope[Path] = list(scope[Path])
         kw['scope'] = ChainMap(scope)
         glom_ = scope.get(glom, glom)
         return glom_(target, self.spec, **kw)
@@ -2312,6 +2314,8 @@ def glom(target, spec, **kwargs):
     for key in (NO_PYFRAME, LAST_CHILD_SCOPE, CUR_ERROR):
         scope.maps[0].pop(key, None)
     scope[CHILD_ERRORS] = []
+    # the path is extended in place (scope[Path] += ...): never the caller's list
+    scope[Path] = list(scope[Path])
     err = None
     if kwargs:
         raise TypeError('unexpected keyword args: %r' % sorted(kwargs.keys()))
